@@ -656,10 +656,64 @@ package decimal
 //@   tags safety C04,C07
 //@ func shl10VU(z, x []Word, s uint) (r Word)
 //@   same shl10VU_g
-//@   status assumed assembly
+//@   asm dec_arith_amd64.s
+//@   split s in 0..18
+//@   label $entry+28 hint assert(r == old(x[len(z)-1]) / p10(19-s) && AX == old(x[len(z)-1]) % p10(19-s) && r < p10(s))
+//@   label L8 invariant[range] 1 <= SI && SI < len(z) && r < p10(s) && AX == old(x[SI]) % p10(19-s) && CX == table(pow10DivTab64, pre, 18-s)*256 + table(pow10DivTab64, post, 18-s)
+//@   label L8 invariant[words] wordsok(z[SI+1:])
+//@   label L8 invariant[value] V(z[SI+1:]) + r*P(len(z)-SI-1) == old(V(x[SI+1:]))*p10(s) + old(x[SI]) / p10(19-s)
+//@   label L8 invariant[rest]  forall k in 0..SI+1 :: x[k] == old(x[k])
+//@   label L8 modifies mem(z)
+//@   label L8+11 hint assert(AX == old(x[SI-1]) / p10(19-s))
+//@   label L8+16 hint assert(z[SI] == AX_0*p10(s) + old(x[SI-1]) / p10(19-s) && z[SI] < B && AX == old(x[SI-1]) % p10(19-s))
+//@   label L8+17 hint V_low(z, SI+1, len(z))
+//@   label L8+17 hint V_low(old(x), SI+1, len(z))
+//@   label L8+17 hint Pdef(len(z)-SI-2)
+//@   label L8+17 hint mul_eq(P(len(z)-SI-1), B*P(len(z)-SI-2), r)
+//@   hint[ret] len(z) > 0 && s > 0 ==> V_low(z, 0, len(z))
+//@   hint[ret] len(z) > 0 && s > 0 ==> V_low(old(x), 0, len(z))
+//@   hint[ret] len(z) > 0 && s > 0 ==> Pdef(len(z)-1)
+//@   hint[ret] len(z) > 0 && s > 0 ==> mul_eq(P(len(z)), B*P(len(z)-1), r)
+//@   label decCpyInv.CU invariant[range] 0 <= SI && SI + 4 <= len(z) && r == 0 && s == 0
+//@   label decCpyInv.CU invariant[done] forall k in SI+4..len(z) :: z[k] == old(x[k])
+//@   label decCpyInv.CU invariant[rest] forall k in 0..SI+4 :: x[k] == old(x[k])
+//@   label decCpyInv.CU modifies mem(z)
+//@   label decCpyInv.CLoop invariant[range] 0 <= SI && SI < len(z) && r == 0 && s == 0
+//@   label decCpyInv.CLoop invariant[done] forall k in SI+1..len(z) :: z[k] == old(x[k])
+//@   label decCpyInv.CLoop invariant[rest] forall k in 0..SI+1 :: x[k] == old(x[k])
+//@   label decCpyInv.CLoop modifies mem(z)
+//@   label decCpyInv.CE+0 hint assert(forall k in 0..len(z) :: z[k] == old(x[k]))
+//@   hint[ret] s == 0 ==> V_eq(z, old(x), 0, len(z))
+//@   tags safety C04,C07
 //@ func shr10VU(z, x []Word, s uint) (r Word)
 //@   same shr10VU_g
-//@   status assumed assembly
+//@   asm dec_arith_amd64.s
+//@   split s in 0..18
+//@   label $entry+30 hint assert(BX == old(x[0]) / p10(s) && r == (old(x[0]) % p10(s)) * p10(19-s) && BX < p10(19-s))
+//@   label $entry+30 hint Vdef(old(x), 0, 0)
+//@   label $entry+30 hint Pdef(0)
+//@   label L9 invariant[range] 0 <= SI && SI < len(z) - 1 && DI == len(z) - 1 && BX < p10(19-s) && r == (old(x[0]) % p10(s)) * p10(19-s) && CX == table(pow10DivTab64, pre, s-1)*256 + table(pow10DivTab64, post, s-1)
+//@   label L9 invariant[words] wordsok(z[:SI])
+//@   label L9 invariant[value] old(V(x[:SI+1])) == p10(s)*(V(z[:SI]) + BX*P(SI)) + old(x[0]) % p10(s)
+//@   label L9 invariant[rest]  forall k in SI+1..len(z) :: x[k] == old(x[k])
+//@   label L9 modifies mem(z)
+//@   label L9+9 hint assert(DX == old(x[SI+1]) / p10(s))
+//@   label L9+17 hint assert(z[SI] == BX_0 + (old(x[SI+1]) % p10(s)) * p10(19-s) && z[SI] < B && BX == old(x[SI+1]) / p10(s))
+//@   label L9+18 hint Vdef(z, 0, SI-1)
+//@   label L9+18 hint Vdef(old(x), 0, SI)
+//@   label L9+18 hint Pdef(SI-1)
+//@   hint[ret] len(z) > 0 && s > 0 ==> Vdef(z, 0, len(z)-1)
+//@   label decCpy.CU invariant[range] 0 <= SI && SI + 4 <= len(z) && DI == len(z) - SI - 4 && r == 0 && s == 0
+//@   label decCpy.CU invariant[done] forall k in 0..SI :: z[k] == old(x[k])
+//@   label decCpy.CU invariant[rest] forall k in SI..len(z) :: x[k] == old(x[k])
+//@   label decCpy.CU modifies mem(z)
+//@   label decCpy.CLoop invariant[range] 0 <= SI && SI < len(z) && DI == len(z) - SI && r == 0 && s == 0
+//@   label decCpy.CLoop invariant[done] forall k in 0..SI :: z[k] == old(x[k])
+//@   label decCpy.CLoop invariant[rest] forall k in SI..len(z) :: x[k] == old(x[k])
+//@   label decCpy.CLoop modifies mem(z)
+//@   label decCpy.CE+0 hint assert(forall k in 0..len(z) :: z[k] == old(x[k]))
+//@   hint[ret] s == 0 ==> V_eq(z, old(x), 0, len(z))
+//@   tags safety C04,C07
 //@ func mulAdd10VWW(z, x []Word, y, r Word) (c Word)
 //@   same mulAdd10VWW_g
 //@   asm dec_arith_amd64.s
